@@ -21,6 +21,11 @@ def gen_wait(tape, rich: bool):
             lst[-1] = tape.choice([("exp", 1, 2, 60, 0), ("inc", 1, 2, 100), ("exp", 0.5, 3, 60, 0)], "w.chain.tailkind")
             if n > 2 and tape.chance(50, 100, "w.chain.short"):
                 lst = lst[:1] + lst[-1:]
+        if tape.chance(35, 100, "w.chain.sumlink"):
+            # a link that is itself a sum (the usual "base + jitter" link)
+            i = tape.rng_int(0, len(lst) - 1, "w.chain.sumlink.i")
+            if lst[i][0] == "fixed":
+                lst[i] = ("combine", [lst[i], tape.choice([("random", 0, 1), ("fixed", 1), ("fixed", 3)], "w.chain.sumlink.kind")])
         return ("chain", lst)
     if k == 2:
         return ("exp", tape.choice([1, 2, 0.5], "w.exp.m"), tape.choice([2, 3], "w.exp.b"),
@@ -99,6 +104,9 @@ def gen_retry_spec(tape, cfg: dict[str, Any]) -> dict:
     if cfg.get("p_stop_deadline") and tape.chance(cfg["p_stop_deadline"], 100, "stop.deadline?"):
         # an attempt budget combined with a time budget, so that waits run into the deadline
         pol["stop"] = ("any", [pol["stop"], (tape.choice(["delay", "delay", "before_delay"], "stop.dl.kind"), tape.choice([3, 5, 8, 13, 21], "stop.dl"))])
+    if tape.chance(cfg.get("p_stop_timedelta", 15), 100, "stop.td?"):
+        # a generous time budget given as a timedelta of days next to the real budget: must not change anything
+        pol["stop"] = ("any", [pol["stop"], ("delay", 86400 * tape.rng_int(1, 3, "stop.td.days") + tape.choice([0, 5, 30], "stop.td.secs"), "timedelta")])
     if tape.chance(cfg.get("p_user_policy", 25), 100, "pol.user"):
         pol["user"] = tape.choice(["plain", "seed"], "pol.user.kind")
     nexc = tape.rng_int(1, 3, "excs.n")
